@@ -11,6 +11,12 @@
 //	make       make(T, n...) with a non-literal size
 //	repeat     strings.Repeat / bytes.Repeat
 //
+// Not sites (each a syntactic pattern that cannot panic; they keep equivalent rewrites of a function from
+// producing "new" sites): make with sizes built from constants, len(..) and cap(..); x[i] where i is the key
+// of an enclosing `for i := range x` or the counter of `for i := c; i < len(x); i++` and neither i nor x is
+// assigned in the loop body; m[k] on a local m := make(map..) / map literal that is never reassigned;
+// t[b] on a package-level [256]T array with b a byte-typed parameter or local.
+//
 // Emitted as coq/gen/Gen_PanicSites.v: one entry per (package, file, enclosing function, kind) with the
 // number of such sites.  coq/model/PanicSites.v holds the audited classification; the obligation
 // `panic_sites_accounted` (vm_compute) fails as soon as a site appears that the audit does not cover.
@@ -91,10 +97,314 @@ func recvName(fd *ast.FuncDecl) string {
 	return fd.Name.Name
 }
 
+
+// psNonNeg: an expression that is >= 0 by construction (sizes for make).
+func psNonNeg(pkg string, e ast.Expr) bool {
+	switch x := e.(type) {
+	case *ast.ParenExpr:
+		return psNonNeg(pkg, x.X)
+	case *ast.BasicLit:
+		return x.Kind == token.INT
+	case *ast.CallExpr:
+		if id, ok := x.Fun.(*ast.Ident); ok && (id.Name == "len" || id.Name == "cap") && len(x.Args) == 1 {
+			return true
+		}
+	case *ast.BinaryExpr:
+		if x.Op == token.ADD || x.Op == token.MUL {
+			return psNonNeg(pkg, x.X) && psNonNeg(pkg, x.Y)
+		}
+	}
+	return psIsConst(pkg, e)
+}
+
+// psStable: an identifier or a chain of field selections on one (no calls, no indexing): its text names one location.
+func psStable(e ast.Expr) (string, bool) {
+	switch x := e.(type) {
+	case *ast.Ident:
+		return x.Name, true
+	case *ast.SelectorExpr:
+		if b, ok := psStable(x.X); ok {
+			return b + "." + x.Sel.Name, true
+		}
+	}
+	return "", false
+}
+
+// psAssigned: body assigns to (or takes the address of, or ++/--) the location named by text, or to a prefix of it.
+func psAssigned(body ast.Node, text string) bool {
+	found := false
+	hit := func(e ast.Expr) {
+		if t, ok := psStable(e); ok && (t == text || strings.HasPrefix(text, t+".")) {
+			found = true
+		}
+	}
+	ast.Inspect(body, func(n ast.Node) bool {
+		switch x := n.(type) {
+		case *ast.AssignStmt:
+			for _, l := range x.Lhs {
+				hit(l)
+			}
+		case *ast.IncDecStmt:
+			hit(x.X)
+		case *ast.UnaryExpr:
+			if x.Op == token.AND {
+				hit(x.X)
+			}
+		case *ast.RangeStmt:
+			if x.Key != nil {
+				hit(x.Key)
+			}
+			if x.Value != nil {
+				hit(x.Value)
+			}
+		}
+		return !found
+	})
+	return found
+}
+
+// psLoopBounded: ie = x[i] sits in the body of a loop on the stack that keeps 0 <= i < len(x).
+func psLoopBounded(stack []ast.Node, ie *ast.IndexExpr, locals map[string]bool, root ast.Node) bool {
+	id, ok := ie.Index.(*ast.Ident)
+	if !ok {
+		return false
+	}
+	xid, ok := ie.X.(*ast.Ident) // only a local of this function: nothing called from the loop body can shorten it,
+	if !ok || !locals[xid.Name] { // unless a closure of this function assigns it (checked below)
+		return false
+	}
+	xt := xid.Name
+	closureAssigns := false
+	ast.Inspect(root, func(n ast.Node) bool {
+		if fl, ok := n.(*ast.FuncLit); ok && psAssigned(fl.Body, xt) {
+			closureAssigns = true
+		}
+		return !closureAssigns
+	})
+	if closureAssigns {
+		return false
+	}
+	for k := len(stack) - 1; k >= 0; k-- {
+		switch l := stack[k].(type) {
+		case *ast.RangeStmt:
+			key, isId := l.Key.(*ast.Ident)
+			if !isId || key.Name != id.Name || l.Tok != token.DEFINE {
+				continue
+			}
+			if rt, ok := psStable(l.X); !ok || rt != xt {
+				return false
+			}
+			return !psAssigned(l.Body, id.Name) && !psAssigned(l.Body, xt)
+		case *ast.ForStmt:
+			init, ok1 := l.Init.(*ast.AssignStmt)
+			cond, ok2 := l.Cond.(*ast.BinaryExpr)
+			post, ok3 := l.Post.(*ast.IncDecStmt)
+			if !ok1 || !ok2 || !ok3 || init.Tok != token.DEFINE || len(init.Lhs) != 1 || len(init.Rhs) != 1 {
+				continue
+			}
+			iv, isId := init.Lhs[0].(*ast.Ident)
+			if !isId || iv.Name != id.Name {
+				continue
+			}
+			lit, isLit := init.Rhs[0].(*ast.BasicLit)
+			pv, isP := post.X.(*ast.Ident)
+			cl, isC := cond.X.(*ast.Ident)
+			if !isLit || lit.Kind != token.INT || !isP || pv.Name != id.Name || post.Tok != token.INC || !isC || cl.Name != id.Name || cond.Op != token.LSS {
+				return false
+			}
+			call, isCall := cond.Y.(*ast.CallExpr)
+			if !isCall || len(call.Args) != 1 {
+				return false
+			}
+			if f, ok := call.Fun.(*ast.Ident); !ok || f.Name != "len" {
+				return false
+			}
+			if rt, ok := psStable(call.Args[0]); !ok || rt != xt {
+				return false
+			}
+			return !psAssigned(l.Body, id.Name) && !psAssigned(l.Body, xt)
+		case *ast.FuncLit:
+			return false
+		}
+	}
+	return false
+}
+
+// psLocals: names declared inside the function (parameters, results, := and var, range variables).
+func psLocals(root ast.Node) map[string]bool {
+	out := map[string]bool{}
+	ast.Inspect(root, func(n ast.Node) bool {
+		switch x := n.(type) {
+		case *ast.Field:
+			for _, id := range x.Names {
+				out[id.Name] = true
+			}
+		case *ast.AssignStmt:
+			if x.Tok == token.DEFINE {
+				for _, l := range x.Lhs {
+					if id, ok := l.(*ast.Ident); ok {
+						out[id.Name] = true
+					}
+				}
+			}
+		case *ast.ValueSpec:
+			for _, id := range x.Names {
+				out[id.Name] = true
+			}
+		case *ast.RangeStmt:
+			if x.Tok == token.DEFINE {
+				for _, e := range []ast.Expr{x.Key, x.Value} {
+					if id, ok := e.(*ast.Ident); ok {
+						out[id.Name] = true
+					}
+				}
+			}
+		}
+		return true
+	})
+	return out
+}
+
+// psLocalMaps: the local variables of a function that are created as a map (make(map..) or a map literal) by := or var and
+// never assigned again: indexing them cannot panic.
+func psLocalMaps(root ast.Node) map[string]bool {
+	isMapMaker := func(e ast.Expr) bool {
+		switch x := e.(type) {
+		case *ast.CompositeLit:
+			_, ok := x.Type.(*ast.MapType)
+			return ok
+		case *ast.CallExpr:
+			if id, ok := x.Fun.(*ast.Ident); ok && id.Name == "make" && len(x.Args) >= 1 {
+				_, ok2 := x.Args[0].(*ast.MapType)
+				return ok2
+			}
+		}
+		return false
+	}
+	defs, assigns := map[string]int{}, map[string]int{}
+	ast.Inspect(root, func(n ast.Node) bool {
+		switch x := n.(type) {
+		case *ast.AssignStmt:
+			for i, l := range x.Lhs {
+				id, ok := l.(*ast.Ident)
+				if !ok {
+					continue
+				}
+				assigns[id.Name]++
+				if x.Tok == token.DEFINE && len(x.Lhs) == len(x.Rhs) && isMapMaker(x.Rhs[i]) {
+					defs[id.Name]++
+				}
+			}
+		case *ast.ValueSpec:
+			for i, id := range x.Names {
+				assigns[id.Name]++
+				if i < len(x.Values) && isMapMaker(x.Values[i]) {
+					defs[id.Name]++
+				}
+			}
+		case *ast.UnaryExpr:
+			if id, ok := x.X.(*ast.Ident); ok && x.Op == token.AND {
+				assigns[id.Name] += 2
+			}
+		case *ast.RangeStmt:
+			for _, e := range []ast.Expr{x.Key, x.Value} {
+				if id, ok := e.(*ast.Ident); ok {
+					assigns[id.Name] += 2
+				}
+			}
+		case *ast.Field: // parameters and results shadowing would confuse the name-based reading
+			for _, id := range x.Names {
+				assigns[id.Name] += 2
+			}
+		}
+		return true
+	})
+	out := map[string]bool{}
+	for name, d := range defs {
+		if d == 1 && assigns[name] == 1 {
+			out[name] = true
+		}
+	}
+	return out
+}
+
+// psByteVars: parameters and var-declared locals of a function whose declared type is byte / uint8.
+func psByteVars(root ast.Node) map[string]bool {
+	out := map[string]bool{}
+	isByte := func(t ast.Expr) bool {
+		id, ok := t.(*ast.Ident)
+		return ok && (id.Name == "byte" || id.Name == "uint8")
+	}
+	ast.Inspect(root, func(n ast.Node) bool {
+		switch x := n.(type) {
+		case *ast.Field:
+			if x.Type != nil && isByte(x.Type) {
+				for _, id := range x.Names {
+					out[id.Name] = true
+				}
+			}
+		case *ast.ValueSpec:
+			if x.Type != nil && isByte(x.Type) {
+				for _, id := range x.Names {
+					out[id.Name] = true
+				}
+			}
+		}
+		return true
+	})
+	// a name that is also assigned by := somewhere is not reliably a byte
+	ast.Inspect(root, func(n ast.Node) bool {
+		if a, ok := n.(*ast.AssignStmt); ok && a.Tok == token.DEFINE {
+			for _, l := range a.Lhs {
+				if id, ok := l.(*ast.Ident); ok {
+					delete(out, id.Name)
+				}
+			}
+		}
+		return true
+	})
+	return out
+}
+
+// psByteTables: package-level variables declared as [256]T arrays (indexing them with a byte cannot panic).
+func psByteTables(p *pkgInfo) map[string]bool {
+	out := map[string]bool{}
+	is256 := func(t ast.Expr) bool {
+		at, ok := t.(*ast.ArrayType)
+		if !ok || at.Len == nil {
+			return false
+		}
+		l, ok := at.Len.(*ast.BasicLit)
+		return ok && l.Value == "256"
+	}
+	for _, f := range p.files {
+		for _, d := range f.Decls {
+			gd, ok := d.(*ast.GenDecl)
+			if !ok || gd.Tok != token.VAR {
+				continue
+			}
+			for _, sp := range gd.Specs {
+				vs := sp.(*ast.ValueSpec)
+				for i, id := range vs.Names {
+					if vs.Type != nil && is256(vs.Type) {
+						out[id.Name] = true
+					} else if i < len(vs.Values) {
+						if cl, ok := vs.Values[i].(*ast.CompositeLit); ok && cl.Type != nil && is256(cl.Type) {
+							out[id.Name] = true
+						}
+					}
+				}
+			}
+		}
+	}
+	return out
+}
+
 func genPanicSites() {
 	counts := map[psKey]int{}
 	for _, d := range []string{"eval", "object", "ast", "parser", "lexer", "repl"} {
 		p := pkgs[d]
+		psTables = psByteTables(p)
 		for fname, f := range p.files {
 			if isVerifOnlyFile(f) {
 				continue
@@ -147,8 +457,11 @@ func genPanicSites() {
 }
 
 // psWalk visits one top-level declaration keeping a parent stack (needed to tell comma-ok assertions apart).
+var psTables map[string]bool
+
 func psWalk(pkg, file, fn string, root ast.Node, counts map[psKey]int) {
 	var stack []ast.Node
+	localMaps, byteVars, locals := psLocalMaps(root), psByteVars(root), psLocals(root)
 	add := func(kind string) { counts[psKey{pkg, file, fn, kind}]++ }
 	ast.Inspect(root, func(n ast.Node) bool {
 		if n == nil {
@@ -168,7 +481,7 @@ func psWalk(pkg, file, fn string, root ast.Node, counts map[psKey]int) {
 					add("panic")
 				case "make":
 					for _, a := range x.Args[1:] {
-						if !psIsConst(pkg, a) {
+						if !psNonNeg(pkg, a) {
 							add("make")
 							break
 						}
@@ -213,6 +526,17 @@ func psWalk(pkg, file, fn string, root ast.Node, counts map[psKey]int) {
 				add("slice")
 			}
 		case *ast.IndexExpr:
+			if id, ok := x.X.(*ast.Ident); ok && localMaps[id.Name] {
+				break
+			}
+			if id, ok := x.X.(*ast.Ident); ok && psTables[id.Name] {
+				if b, ok := x.Index.(*ast.Ident); ok && byteVars[b.Name] {
+					break
+				}
+			}
+			if psLoopBounded(stack[:len(stack)-1], x, locals, root) {
+				break
+			}
 			if _, isLit := x.Index.(*ast.BasicLit); isLit {
 				add("indexc")
 			} else {
